@@ -1,6 +1,7 @@
 package rules
 
 import (
+	"go/constant"
 	"fmt"
 	"go/token"
 	"go/types"
@@ -81,6 +82,7 @@ func c04(e *Env) {
 	e.c04CreateTasks()
 	// ---- R5/R6 runProcs
 	e.spawnRules("R5", "R6")
+	e.connectRule("R10")
 	// ---- R7 delivery through Process.Run and the sink
 	e.forwardAllOutputs("R7")
 	e.c05Sink("R7")
@@ -624,4 +626,120 @@ func ruleOfKey(key string) string {
 		key = key[:i]
 	}
 	return key
+}
+
+// connectRule (C04.R10, shared as C16.R6): connecting two ports registers each in the other's RemotePorts map, under the
+// remote's own name, and marks both ready - on every path. A one-sided registration either sends into the void (the
+// out-port does not know its consumer: items lost) or never closes the consumer's channel (the in-port does not know
+// its upstream: len(RemotePorts) is 0 from the start, or never reaches 0), and a port left not-ready makes a fully
+// wired workflow be refused.
+func (e *Env) connectRule(rule string) {
+	r := e.R
+	p := e.P
+	for _, c := range []struct{ typ, meth string }{{"InPort", "From"}, {"OutPort", "To"}, {"InParamPort", "From"}, {"OutParamPort", "To"}} {
+		ob := r.Ob(rule, "(*"+c.typ+")."+c.meth+":symmetric", "connecting registers each port in the other's RemotePorts under the remote's name and marks both ready, on every path")
+		fn := p.DeclaredMethod("scipipe", c.typ, c.meth)
+		if fn == nil || len(fn.Params) != 2 {
+			ob.Unknown("-", "(*"+c.typ+")."+c.meth+" not found")
+			continue
+		}
+		g := e.XG(fn)
+		if g == nil {
+			continue
+		}
+		sy := e.symbolizer()
+		recv, rem := ssa.Value(fn.Params[0]), ssa.Value(fn.Params[1])
+		isRet := func(m *core.Node) bool { return m.Kind == core.KRootRet }
+		entry := g.Run(core.Scenario{Start: g.Entry, AtEntry: true})
+		// registrations: MapUpdate on X.RemotePorts with value Y, keyed by Name(Y)
+		reg := map[[2]ssa.Value][]*core.Node{}
+		ready := map[ssa.Value][]*core.Node{}
+		for _, n := range g.Nodes {
+			switch x := n.Instr.(type) {
+			case *ssa.MapUpdate:
+				f := fieldOfLoad(x.Map)
+				if f == nil || f.Name() != "RemotePorts" {
+					continue
+				}
+				u, ok := x.Map.(*ssa.UnOp)
+				if !ok {
+					continue
+				}
+				fa, ok := u.X.(*ssa.FieldAddr)
+				if !ok {
+					continue
+				}
+				_, base := rootValThroughEmbedding(n.Ctx, fa.X)
+				_, val := rootVal(n.Ctx, x.Value)
+				okKey := false
+				if kc, ok := x.Key.(*ssa.Call); ok && kc.Call.StaticCallee() != nil && kc.Call.StaticCallee().Name() == "Name" && len(kc.Call.Args) == 1 {
+					if _, kv := rootVal(n.Ctx, kc.Call.Args[0]); kv == val {
+						okKey = true
+					}
+				}
+				if !okKey {
+					ob.Fail(g.Where(n), "a port is registered under "+trunc(sy.InCtx(n.Ctx, x.Key).String(), 80)+", not under its own Name(): Disconnect and CloseConnection look it up by name")
+					continue
+				}
+				reg[[2]ssa.Value{base, val}] = append(reg[[2]ssa.Value{base, val}], n)
+			case *ssa.Store:
+				fa, ok := x.Addr.(*ssa.FieldAddr)
+				if !ok || fieldOfAddr(fa) == nil || fieldOfAddr(fa).Name() != "ready" {
+					continue
+				}
+				if k, ok := x.Val.(*ssa.Const); !ok || k.Value == nil || !constant.BoolVal(k.Value) {
+					if pa, isP := x.Val.(*ssa.Parameter); isP {
+						// SetReady(v): the argument in context
+						if _, av := rootVal(n.Ctx, pa); av != nil {
+							if kk, ok := av.(*ssa.Const); !ok || kk.Value == nil || !constant.BoolVal(kk.Value) {
+								continue
+							}
+						}
+					} else {
+						continue
+					}
+				}
+				_, base := rootValThroughEmbedding(n.Ctx, fa.X)
+				ready[base] = append(ready[base], n)
+			}
+		}
+		okAll := true
+		need := func(what string, nodes []*core.Node) {
+			if len(nodes) == 0 {
+				okAll = false
+				ob.Fail(core.FuncName(fn), what+" is missing")
+				return
+			}
+			set := nodeSet(nodes)
+			if entry.ReachesAvoiding(isRet, func(m *core.Node) bool { return set[m] }) != nil {
+				okAll = false
+				ob.Fail(g.Where(nodes[0]), what+" does not happen on every path")
+			}
+		}
+		need("the registration of the remote port in the receiver's RemotePorts", reg[[2]ssa.Value{recv, rem}])
+		need("the registration of the receiver in the remote port's RemotePorts (the other direction)", reg[[2]ssa.Value{rem, recv}])
+		need("marking the receiver ready", ready[recv])
+		need("marking the remote port ready", ready[rem])
+		if okAll {
+			ob.OK(core.FuncName(fn), "both RemotePorts maps updated under Name(), both ports marked ready, on every path")
+		}
+	}
+}
+
+// rootValThroughEmbedding: rootVal, additionally stepping from the address of an embedded struct to the object that
+// embeds it (a flag kept in a `portCore` embedded in every port type belongs to the port).
+func rootValThroughEmbedding(c *core.Ctx, v ssa.Value) (*core.Ctx, ssa.Value) {
+	for i := 0; i < 6; i++ {
+		c, v = rootVal(c, v)
+		fa, ok := v.(*ssa.FieldAddr)
+		if !ok {
+			break
+		}
+		st, ok := deref2(fa.X.Type()).Underlying().(*types.Struct)
+		if !ok || fa.Field >= st.NumFields() || !st.Field(fa.Field).Embedded() {
+			break
+		}
+		v = fa.X
+	}
+	return c, v
 }
